@@ -20,6 +20,8 @@ pub struct Profile {
     pub w_roundtrip: u32,
     pub w_rollback: u32,
     pub w_mpk: u32,
+    /// serialise a random object and send its bytes to the wire model
+    pub w_ser: u32,
     /// percentage of deliberately malformed arguments
     pub malformed_pct: u32,
     /// percentage of hybridized attributes
@@ -49,6 +51,7 @@ impl Profile {
             w_roundtrip: 1,
             w_rollback: 0,
             w_mpk: 0,
+            w_ser: 0,
             malformed_pct: 10,
             hybrid_pct: 30,
             matrix_often: false,
@@ -499,6 +502,21 @@ impl HistGen {
             // the generator's view of names is now approximate: fine, lines stay well-formed
         }
     }
+    pub fn op_ser(&mut self) {
+        let choices = ["M", "K", "U", "E", "S"];
+        let c = *self.rng.pick(&choices);
+        let n = match c {
+            "M" | "S" => 1,
+            "K" => self.next_k,
+            "U" => self.next_u,
+            _ => self.next_e,
+        };
+        if n == 0 {
+            return;
+        }
+        let i = self.rng.below(n);
+        self.emit(format!("ser {c}{i}"));
+    }
     pub fn op_mpk(&mut self) {
         let k = self.new_k();
         self.emit(format!("mpk M0 K{k}"));
@@ -551,7 +569,7 @@ impl HistGen {
         let p = self.p.clone();
         let ws = [
             p.w_edit, p.w_update, p.w_rekey, p.w_prune, p.w_keygen, p.w_refresh, p.w_encaps, p.w_recaps,
-            p.w_roundtrip, p.w_rollback, p.w_mpk,
+            p.w_roundtrip, p.w_rollback, p.w_mpk, p.w_ser,
         ];
         let tot: u32 = ws.iter().sum();
         let mut r = (self.rng.next() % tot as u64) as u32;
@@ -569,7 +587,8 @@ impl HistGen {
                     7 => self.op_recaps(),
                     8 => self.op_roundtrip(),
                     9 => self.op_rollback(),
-                    _ => self.op_mpk(),
+                    10 => self.op_mpk(),
+                    _ => self.op_ser(),
                 }
                 if self.p.matrix_often && self.lines.len() > before && matches!(k, 5 | 6 | 7) {
                     self.emit("matrix".into());
